@@ -74,8 +74,17 @@ claim('C05', 'exploration', TECH + ': invariant on every reported row of seeded 
       'overshot its threshold by more than two seconds of tank flow.',
       INV_NOTE, 'DESIGN.md section 4 (C05)')
 
+E2_NOTE = ('Trusted: the mirror (plain dicts kept by the harness, wsim/store.py) and the interpreter that applies each operation to it; pickle/deepcopy/json of the '
+           'standard library. Histories are valid uses of the API (unique names, existing references); <= 40 operations. A clean batch is evidence, not proof.')
+claim('C14', 'exploration', TECH + ': seeded edit histories on the real model against a mirror, with refused operations and restarts (pickle/deepcopy/dict/JSON/INP) inside the history',
+      'Histories of 8-40 operations (add/remove of every element kind with and without with_control, half of the removals aimed at elements still in use, reassignment of link '
+      'end nodes, pump speed pattern and curve, reservoir head pattern, tank volume curve, restarts that keep only a persisted image after which the history continues on the '
+      'reloaded model) run on the real WaterNetworkModel and on a mirror; after every operation every name list, count, typed iterator, describe(), link end nodes, '
+      'get_links_for_node, to_graph and usage record is compared with the mirror; a refused operation must raise and leave the state digest (to_dict + usage maps + typed sets) unchanged.',
+      E2_NOTE, 'DESIGN.md section 5 (C14)')
+
 _PENDING = 'check not built yet in this session (planned, see DESIGN.md section 11); not claimed until it runs clean'
-for _p in ['C03', 'C12', 'C13', 'C14', 'C15']:
+for _p in ['C03', 'C12', 'C13', 'C15']:
     NOT_APPLICABLE[_p] = _PENDING
 NOT_APPLICABLE['C17'] = 'pure total functions of (value, unit, parameter): no state, clock, I/O or failure mode for a schedule or fault to act on; deterministic simulation has nothing to vary (DESIGN.md section 7)'
 NOT_APPLICABLE['C18'] = 'pure function of (graph, valve layer) returning a labelling: nothing evolves, fails or persists (DESIGN.md section 7)'
